@@ -19,8 +19,13 @@ unit-stripping accessors are classified by a may-alias analysis: d / ndview / nd
 value / to_ndarray() / copy() / to_value() return fresh arrays, the constructor wraps ndarray and unyt_array input as a view,
 Unit * data copies the data, and a list of quantities in mixed units is coerced by converting every element into the
 first element's unit; (R3) indexing and views keep units and name.
-(R4) converting calls build their result from a product with the conversion factor on every path (shared with C03-R2)."""
-LEVEL_NOTE = """Undecided: shapes produced by NumPy for functions unyt does not wrap. Noted, not a rule instance: handlers with
+(R4) converting calls build their result from a product with the conversion factor on every path (shared with C03-R2).
+(R5) results NumPy creates from a template of the operand's class (functions without a handler, ndarray methods such as repeat):
+the only package code that runs is __array_finalize__, which re-classes a unyt_quantity instance with more than one element to
+unyt_array on every path and never a 0-d one (decision table over abstract shapes (), (0,), (1,), (2,), (2,2))."""
+LEVEL_NOTE = """Undecided: shapes produced by NumPy for functions unyt does not wrap; 0-d unyt_array results of template-created
+functions (np.squeeze of a one-element array) - the constructor itself builds 0-d unyt_arrays on request, so a promotion in the
+hook would change documented behaviour; one-element quantities of shape (1,) (q.ravel()) are not multi-element. Noted, not a rule instance: handlers with
 out= return unyt_array(res, ...) unconditionally (np.dot(a, b, out=<0-d>) yields a 0-d unyt_array, which is not a
 multi-element quantity and therefore not excluded by the statement's 'never a multi-element quantity' clause but is a 0-d
 non-quantity)."""
@@ -300,8 +305,103 @@ def metadata(repo, res):
     res.check(meta_ok, "getitem:metadata", gi.where(), "a scalar obtained by indexing carries the parent's units and name", rid=r3)
     res.check(view_ok, "getitem:result", gi.where(), "non-scalar results are NumPy's own view (units copied by __array_finalize__)", rid=r3)
     fz = arr.func("unyt_array.__array_finalize__")
-    t = [norm(s) for s in fz.body]
-    res.check(t == [f"self.units = getattr({fz.params[1]}, 'units', NULL_UNIT)", f"self.name = getattr({fz.params[1]}, 'name', None)"], "finalize", fz.where(), "views and templates inherit units and name", found=t, rid=r3)
+    from engine.sem import summarise
+
+    want = [f"self.units = getattr({fz.params[1]}, 'units', NULL_UNIT)", f"self.name = getattr({fz.params[1]}, 'name', None)"]
+    sums = [x for x in summarise(fz) if x.kind != "raise"]
+    bad = [x.effects for x in sums if [e for e in x.effects if e.startswith(("self.units =", "self.name ="))] != want]
+    res.check(bool(sums) and not bad, "finalize", fz.where(), "views and templates inherit units and name (on every path of __array_finalize__)", found=bad[:2], rid=r3)
+    template_class(repo, res)
+
+
+# abstract instances NumPy may hand to __array_finalize__: (ndim, size); shape () is (0, 1)
+_SHAPES = [(0, 1), (1, 0), (1, 1), (1, 2), (2, 4)]
+
+
+class _AbsSelf:
+    def __init__(self, ndim, size, isq):
+        self.ndim, self.size, self.isq = ndim, size, isq
+        self.shape = () if ndim == 0 else ((size,) if ndim == 1 else (2, size // 2))
+
+    def __len__(self):
+        if self.ndim == 0:
+            raise TypeError
+        return self.shape[0]
+
+
+class _NP:
+    ndim = staticmethod(lambda a: a.ndim)
+    size = staticmethod(lambda a: a.size)
+    shape = staticmethod(lambda a: a.shape)
+
+
+def _admits(facts, me, st):
+    """False when some fact of the path is known not to hold for the abstract instance, True otherwise"""
+    Q, A = "unyt_quantity", "unyt_array"
+
+    def _isinstance(o, c):
+        if o is not st:
+            raise ValueError
+        cs = c if isinstance(c, tuple) else (c,)
+        return any(x == A or (x == Q and st.isq) for x in cs)
+
+    def _type(o):
+        if o is not st:
+            raise ValueError
+        return Q if st.isq else A
+
+    ns = {me: st, "unyt_quantity": Q, "unyt_array": A, "isinstance": _isinstance, "type": _type, "len": len, "np": _NP, "__builtins__": {}}
+    for t, truth in facts:
+        try:
+            v = bool(eval(compile(ast.parse(t, mode="eval"), "<fact>", "eval"), ns))  # a comparison over the abstract instance, not repository code
+        except Exception:
+            continue
+        if v != truth:
+            return False
+    return True
+
+
+def template_class(repo, res):
+    """NumPy creates many results from a *template*: `func._implementation` of functions unyt does not wrap, ndarray
+    methods (repeat, ravel, ...) and view casting produce an instance of the operand's class whatever the result's
+    shape, and the only code of the package that runs is __array_finalize__.  So that hook decides the class: a
+    unyt_quantity instance with more than one element is re-classed to unyt_array, a 0-d one never is."""
+    from engine.sem import summarise
+
+    r5 = res.rule("C16-R5", "results NumPy creates from a template of the operand's class (np.repeat, ndarray.repeat, functions without a handler): __array_finalize__ re-classes a unyt_quantity with more than one element to unyt_array on every path, and never a 0-d one", floor=2)
+    arr = repo.mod(ARR)
+    hooks = [arr.func("unyt_array.__array_finalize__")]
+    try:
+        hooks.append(arr.func("unyt_quantity.__array_finalize__"))
+    except AnalysisError:
+        pass
+    # the hook that runs for a unyt_quantity instance is the most derived one
+    fz = hooks[-1]
+    res.fn(fz)
+    me = fz.params[0]
+    sums = [x for x in summarise(fz) if x.kind != "raise"]
+    if not sums:
+        raise AnalysisError(f"{fz.where()}: no normal path through __array_finalize__")
+    if fz is not hooks[0]:
+        txt = norm(fz.node)
+        res.check("super().__array_finalize__(" in txt, "template:override-chains", fz.where(), "an override of __array_finalize__ in unyt_quantity calls the base hook (units and name)", rid=r5)
+    demote = f"{me}.__class__ = unyt_array"
+    many_bad, scalar_bad = [], []
+    for x in sums:
+        does = demote in x.effects
+        other = [e for e in x.effects if e.startswith(f"{me}.__class__ =") and e != demote]
+        if other:
+            scalar_bad.append((sorted(x.facts), other))
+        for nd, sz in _SHAPES:
+            st = _AbsSelf(nd, sz, True)
+            if not _admits(x.facts, me, st):
+                continue
+            if sz > 1 and not does:
+                many_bad.append((f"shape ndim={nd} size={sz}", sorted(x.facts)))
+            if nd == 0 and does:
+                scalar_bad.append((f"shape ()", sorted(x.facts)))
+    res.check(not many_bad, "template:many-elements", fz.where(), "a unyt_quantity instance with more than one element leaves __array_finalize__ still a unyt_quantity (np.repeat(q, 3), q.repeat(3), np.unique / np.tile style results of functions without a handler are multi-element quantities)", f"`{demote}` on every path a multi-element quantity can take", many_bad[:3], rid=r5)
+    res.check(not scalar_bad, "template:scalar-stays", fz.where(), "a 0-d unyt_quantity must stay a unyt_quantity in __array_finalize__", "re-classing only under a condition that excludes shape ()", scalar_bad[:3], rid=r5)
 
 
 MUTANTS = [
@@ -318,5 +418,10 @@ MUTANTS = [
     Mutant("coerce-relabels", ARR, "_coerce_iterable_units", "ret.append(datum.in_units(ff.units))", "ret.append(datum)", ("C16-R2",)),
     Mutant("getitem-drops-name", ARR, "unyt_array.__getitem__", "ret = unyt_quantity(ret, bypass_validation=True, name=self.name)", "ret = unyt_quantity(ret, bypass_validation=True)", ("C16-R3", "C16-R1")),
     Mutant("finalize-drops-units", ARR, "unyt_array.__array_finalize__", '        self.units = getattr(obj, "units", NULL_UNIT)\n', "        self.units = NULL_UNIT\n", ("C16-R3", "C07-R3")),
+    Mutant("template-no-demotion", ARR, "unyt_array.__array_finalize__", "        if self.size > 1 and isinstance(self, unyt_quantity):", "        if False:", ("C16-R5",)),
+    Mutant("template-demotes-scalars", ARR, "unyt_array.__array_finalize__", "        if self.size > 1 and isinstance(self, unyt_quantity):", "        if self.size > 0 and isinstance(self, unyt_quantity):", ("C16-R5",)),
+    Mutant("template-demotes-2d-only", ARR, "unyt_array.__array_finalize__", "        if self.size > 1 and isinstance(self, unyt_quantity):", "        if self.ndim > 1 and isinstance(self, unyt_quantity):", ("C16-R5",)),
+    Mutant("twin-template-guard-nested", ARR, "unyt_array.__array_finalize__", "        if self.size > 1 and isinstance(self, unyt_quantity):", "        if isinstance(self, unyt_quantity) and self.ndim > 0 and self.size != 1:", (), benign=True),
+    Mutant("twin-template-shape-test", ARR, "unyt_array.__array_finalize__", "        if self.size > 1 and isinstance(self, unyt_quantity):", "        if self.shape != () and isinstance(self, unyt_quantity):", (), benign=True),
     Mutant("in-units-unit-factor-view", ARR, "unyt_array.in_units", "ret = np.asarray(self.ndview * conversion_factor, dtype=new_dtype)", "ret = np.asarray(self.ndview, dtype=new_dtype) if conversion_factor == 1 else np.asarray(self.ndview * conversion_factor, dtype=new_dtype)", ("C16-R4",)),
 ]
